@@ -379,6 +379,14 @@ func init() {
 		"internal/race.Errors":             func(fr *frame, a []value) value { return 0 },
 
 		// ---- sort via reflection
+		// encoding/binary.Read/Write fall back to package reflect: redirected
+		// to reflection-free interpreted equivalents in verifrt
+		"encoding/binary.Read": func(fr *frame, a []value) value {
+			return call(fr.i, fr, token.NoPos, fr.i.P.pkgByPath["verif/verifrt"].Func("BinRead"), a)
+		},
+		"encoding/binary.Write": func(fr *frame, a []value) value {
+			return call(fr.i, fr, token.NoPos, fr.i.P.pkgByPath["verif/verifrt"].Func("BinWrite"), a)
+		},
 		"sort.Slice":       ext۰sort۰Slice,
 		"sort.SliceStable": ext۰sort۰SliceStable,
 		"sort.Strings": func(fr *frame, a []value) value {
